@@ -62,6 +62,12 @@ def all_cases(tier):
             out.append({"init": "Conv1d", "shape": [co, ci, k], "dtype": "float32", "rg": True, "args": {"bias": bias}})
             for k2 in (1, 3):
                 out.append({"init": "Conv2d", "shape": [co, ci, k, k2], "dtype": "float32", "rg": True, "args": {"bias": bias}})
+        # the start distribution depends on the number of weights feeding one output (fan_in), not on how the window is laid out
+        # over the input: stride / padding / dilation leave it alone
+        for geom in ({"dilation": 2}, {"stride": 2, "padding": 1}, {"dilation": 3, "stride": 2, "padding": 2}):
+            out.append({"init": "Conv1d", "shape": [co, ci, k], "dtype": "float32", "rg": True, "args": {"bias": True, "geom": geom}})
+        for geom in ({"dilation": 2}, {"dilation": [3, 2]}, {"stride": [2, 1], "padding": [1, 0], "dilation": [1, 2]}):
+            out.append({"init": "Conv2d", "shape": [co, ci, k, 3], "dtype": "float32", "rg": True, "args": {"bias": True, "geom": geom}})
     return out
 
 def expected(case):
@@ -103,8 +109,8 @@ def judge(case):
         with randsrc.controlled(u=u, z=z, cycle=True) as src:
             if init in ("Linear", "Conv1d", "Conv2d"):
                 if init == "Linear": L = nn.Linear(s[1], s[0], bias=A["bias"])
-                elif init == "Conv1d": L = nn.Conv1d(s[1], s[0], s[2], bias=A["bias"])
-                else: L = nn.Conv2d(s[1], s[0], (s[2], s[3]), bias=A["bias"])
+                elif init == "Conv1d": L = nn.Conv1d(s[1], s[0], s[2], bias=A["bias"], **(A.get("geom") or {}))
+                else: L = nn.Conv2d(s[1], s[0], (s[2], s[3]), bias=A["bias"], **({k: (tuple(v) if isinstance(v, list) else v) for k, v in (A.get("geom") or {}).items()}))
                 outs = [np.asarray(L.weight.data)] + ([np.asarray(L.bias.data)] if A["bias"] else [])
                 if tuple(L.weight.shape) != s: v("shape", f"weight shape {L.weight.shape} != {s}")
                 if not L.weight.requires_grad: v("requires_grad", "layer weight does not require grad")
